@@ -585,6 +585,7 @@ def d6_subset_string(ctx):
     if not (isinstance(a.slice, ast.Subscript)):
         raise AnalysisError(f"_get_savedChans_subset: first element index `{src(a.slice)}` is not a group-boundary lookup")
     G = loc_name(a.slice.value)
+    G_expr = a.slice.value     # the boundary array: a local, or (when it is written in place) the expression itself
     ev = Evaluator(resolve=lambda e: repo.resolve_expr(fw, e))
     iv = ev.ev(a.slice.slice)
     try:
@@ -597,7 +598,7 @@ def d6_subset_string(ctx):
     if ka == 0 and kb == 0 and len(nxt) == 1 and bv.coeff(nxt[0]) == 1 and (bv - Poly.sym(nxt[0])).const_value() == -1:
         # the symbol must be G[i + 1]
         for sb in find(b.slice, ast.Subscript):
-            if loc_name(sb.value) == G:
+            if norm(sb.value) == norm(G_expr):
                 try:
                     okb = (ev.ev(sb.slice) - iv).const_value() == 1
                 except Undecided:
@@ -608,13 +609,18 @@ def d6_subset_string(ctx):
     # single-channel form writes the run's first element
     j1, lits1, vals1 = one[0]
     s1 = sub_of(vals1[0])
-    ok1 = s1 is not None and isinstance(s1.slice, ast.Subscript) and loc_name(s1.slice.value) == G and not lits1
+    ok1 = s1 is not None and isinstance(s1.slice, ast.Subscript) and norm(s1.slice.value) == norm(G_expr) and not lits1
     ctx.check(ok1, fw, j1, j1, "a single trailing channel is written as itself", f"single-channel form `{src(j1)}` is not `{P}[{G}[i]]`", key="w-single")
     # G = r_[0, where(diff(P) != 1)[0] + 1, len(P)]
-    gdef = [d for d in duw.defs if d.var == G and d.kind == "assign"]
-    if not gdef:
+    gdef = [d for d in duw.defs if d.var == G and d.kind == "assign"] if G else []
+    if G and not gdef:
         raise AnalysisError(f"_get_savedChans_subset: definition of `{G}` not found")
-    gv = gdef[0].value
+    gv = gdef[0].value if gdef else G_expr
+
+    class _S:
+        stmt = j2
+    if not gdef:
+        gdef = [_S()]
     okg = False
     why = "not np.r_[0, <breaks> + 1, len]"
     if isinstance(gv, ast.Subscript) and src(gv.value).endswith("r_") and isinstance(gv.slice, ast.Tuple) and len(gv.slice.elts) == 3:
@@ -636,7 +642,7 @@ def d6_subset_string(ctx):
     # loop over all runs
     rngs = [c for c in find(fw.node, ast.Call) if call_name(c) == "range"]
     okr = any(len(c.args) == 1 and isinstance(c.args[0], ast.BinOp) and isinstance(c.args[0].op, ast.Sub) and _cv(c.args[0].right) == 1
-              and isinstance(c.args[0].left, ast.Call) and call_name(c.args[0].left) == "len" and loc_name(c.args[0].left.args[0]) == G for c in rngs)
+              and isinstance(c.args[0].left, ast.Call) and call_name(c.args[0].left) == "len" and norm(c.args[0].left.args[0]) == norm(G_expr) for c in rngs)
     ctx.check(okr, fw, rngs[0] if rngs else fw.node, rngs[0] if rngs else "range(...)", "every run is written", f"the runs are not enumerated by range(len({G}) - 1)", key="w-all-runs")
 
     # --- parser
